@@ -1,6 +1,8 @@
 import PkgModel.Generated.PySrc
 import PkgModel.Tags
 import PkgProofs.Lemmas.PyRt
+import PkgProofs.Lemmas.SrcRobust
+import PkgProofs.Lemmas.SrcLoops
 /-!
 # Translated source of `packaging.tags` = the model (`PkgModel/Tags.lean`)
 -/
@@ -59,7 +61,7 @@ theorem _py_interpreter_range_eq_model (v : List Nat) (h : v ≠ []) :
   unfold Gen.PySrc._py_interpreter_range
   rcases v with _ | ⟨a, _ | ⟨b, rest⟩⟩
   · exact absurd rfl h
-  · simp [ofVersion, cmp, asInt, Cmp.onInt, pyInterpreterRange, ofNat, ofString, sPy]
+  · simp [ofVersion, cmp, gt, asInt, Cmp.onInt, pyInterpreterRange, ofNat, ofString, sPy]
   · have hr := range_down b 0
     have hr0 : ((0 : Nat) : Int) - 1 = -1 := by omega
     rw [hr0] at hr
@@ -72,7 +74,7 @@ theorem _py_interpreter_range_eq_model (v : List Nat) (h : v ≠ []) :
     have hb : ((b : Int) - 1) = ((b : Int) - 1) := rfl
     simp only [ofVersion, List.map_cons, ofNat, len_tuple, List.length_cons, ok_bind, hlen, if_true,
       getslice_tuple_to _ 2, show (PyVal.int 2) = PyVal.int ((2 : Nat) : Int) from rfl, List.take, ht, format_str,
-      getitem_tuple_zero, getitem_tuple_one, format_nat, sub_int, hr, iterate_iter]
+      getitem_tuple_zero, getitem_tuple_one, format_nat, sub_int, hr, iterate_iter, gt, pure_ok, truthy_bool]
     rw [forIn_append_ok _ _ _ (fun m => match m with
       | .int i => [PyVal.str (ofString "py" ++ versionNodot [a, i.toNat])] | _ => [])]
     · simp only [pure_ok, ok_bind, pyInterpreterRange, List.length_cons, List.take, List.getD_cons_zero, List.getD_cons_succ]
@@ -128,14 +130,15 @@ theorem _abi3_applies_eq_model (v : List Nat) (t : Bool) :
     Gen.PySrc._abi3_applies (ofVersion v) (.bool t) = .ok (.bool (abi3Applies v t)) := by
   unfold Gen.PySrc._abi3_applies
   have h32 : (PyVal.tuple [PyVal.int 3, PyVal.int 2]) = .tuple ([3, 2].map ofNat) := rfl
-  simp only [ofVersion, len_tuple, List.length_map, gt, ge, cmp, asInt, Cmp.onInt, pure_ok, ok_bind, tuple_tuple, h32,
+  simp only [ofVersion, len_tuple, List.length_map, gt, ge, le, cmp, asInt, Cmp.onInt, pure_ok, ok_bind, tuple_tuple, h32,
     cmpSeq_ge_nats, truthy_bool, abi3Applies]
   by_cases h1 : v.length > 1
-  · have : decide ((v.length : Int) > 1) = true := by simp; omega
-    simp only [this, if_true, h1, decide_true, Bool.true_and]
-    cases tupGe v [3, 2] <;> simp
-  · have : decide ((v.length : Int) > 1) = false := by simp; omega
-    simp [this, h1]
+  · have h2 : ¬ ((v.length : Int) ≤ 1) := by omega
+    have h3 : (1 : Int) < (v.length : Int) := by omega
+    cases tupGe v [3, 2] <;> cases t <;> src_simp [h1, h2, h3, and_, or_]
+  · have h2 : (v.length : Int) ≤ 1 := by omega
+    have h3 : ¬ ((1 : Int) < (v.length : Int)) := by omega
+    cases tupGe v [3, 2] <;> cases t <;> src_simp [h1, h2, h3, and_, or_]
 
 theorem isInfix_single (s : Str) (c : Nat) : isInfix s [c] = s.contains c := by
   induction s with
@@ -174,9 +177,9 @@ theorem _is_threaded_cpython_eq_model (abis : List Str) :
       simp [List.length_cons]; omega
     rw [threaded_rx]
     simp only [ofStrs, len_list, ok_bind, List.map_cons, h0, Bool.false_eq_true, if_false, getitem_list_zero, re_match,
-      if_true, pure_ok]
+      if_true, pure_ok, truthy_list, List.isEmpty_cons, Bool.not_false, Bool.not_true]
     cases hm : rx_cp_digits_rest a with
-    | none => simp
+    | none => src_simp
     | some gs =>
       have : ∃ g, gs = [.str g] := by
         unfold rx_cp_digits_rest at hm
@@ -187,7 +190,8 @@ theorem _is_threaded_cpython_eq_model (abis : List Str) :
           · simp at hm; exact ⟨_, hm.symm⟩
         · simp at hm
       obtain ⟨g, rfl⟩ := this
-      simp [match_group, in_, contains, isInfix_single, hasChar, ofString, truthy]
+      src_simp [match_group, in_, contains, isInfix_single, hasChar, ofString, truthy, and_,
+        show ∀ c f, isNone (PyVal.obj c f) = false from fun _ _ => rfl]
 
 /-! ### `Tag`, the environment, `compatible_tags` -/
 
@@ -553,101 +557,238 @@ theorem genexp_tags (f : PyVal → M PyVal) (g : Str → Tags.Tag) (plats : List
     obtain ⟨p, _, rfl⟩ := hx
     exact h p
 
+theorem contains_strs_mem (l : List Str) (x : Str) :
+    PyRt.contains (.list (l.map .str)) (.str x) = .ok (decide (x ∈ l)) := by
+  induction l with
+  | nil => simp [contains_list_nil]
+  | cons k ks ih =>
+    rw [List.map_cons, contains_list_cons_str, ih]
+    by_cases h : x = k <;> simp [h]
+
 /-- `cpython_tags(python_version, abis, platforms, warn=…)`; the interpreter probes come from the environment -/
 theorem cpython_tags_eq_model (cfg : Cfg) (ver : Option (List Nat)) (abis plats : Option (List Str)) (warn : PyVal)
     (hs : cfg.sysVersion.length ≤ 2) (hv : versionOrDefault cfg ver ≠ []) :
     Gen.PySrc.cpython_tags (envOfCfg cfg) (ofOptVersion ver) (ofOptStrs abis) (ofOptStrs plats) warn =
       .ok (.iter ((cpythonTags cfg ver abis plats).map ofTag)) := by
-  unfold Gen.PySrc.cpython_tags
-  have hsl : getslice (ofVersion (versionOrDefault cfg ver)) PyVal.none (PyVal.int 2) = .ok (ofVersion ((versionOrDefault cfg ver).take 2)) := by
-    rw [ofVersion, show (PyVal.int 2) = PyVal.int ((2 : Nat) : Int) from rfl, getslice_tuple_to, ofVersion, List.map_take]
-  simp only [version_default_jp cfg ver hs]
-  simp only [abis_default_jp cfg _ abis warn]
-  simp only [platforms_default_jp cfg plats]
-  generalize hV : versionOrDefault cfg ver = V at *
-  generalize hP : platformsOrDefault cfg plats = P
-  obtain ⟨a, rest, rfl⟩ : ∃ a rest, V = a :: rest := by
-    cases V with
-    | nil => exact absurd rfl hv
-    | cons a rest => exact ⟨a, rest, rfl⟩
-  -- the two removals
-  have hrem : ∀ l : List Str,
-      forIn [PyVal.str (ofString "abi3"), PyVal.str (ofString "none")] (PyVal.list (l.map .str)) (fun explicit_abi __s => do
-        let p ← tryCatch (do let abis ← list_remove __s explicit_abi; pure (⟨(), abis⟩ : Unit × PyVal))
-          (fun __e1 => if catches "ValueError" __e1 = true then pure ⟨(), __s⟩
-            else do let __r ← (throw __e1 : M Unit); pure ⟨__r, __s⟩)
-        pure (ForInStep.yield p.snd)) = .ok (.list (((l.erase sAbi3).erase sNone).map .str)) := by
-    intro l
-    simp only [List.forIn_cons, List.forIn_nil]
-    rw [show ofString "abi3" = sAbi3 from rfl, show ofString "none" = sNone from rfl, remove_or_keep sAbi3 l]
-    simp only [ok_bind, pure_bind]
-    rw [remove_or_keep sNone]
-    rfl
-  simp only [hsl, ok_bind, _version_nodot_eq_model, format_str, ofStrs, list_list, iterate_tuple]
-  erw [hrem]
-  simp only [ok_bind, iterate_list]
-  generalize hA : ((abisOrDefault cfg (a :: rest) abis).erase sAbi3).erase sNone = A
-  generalize hI : ofString "cp" ++ versionNodot (List.take 2 (a :: rest)) = I
-  -- the loop over abis x platforms
-  have inner : ∀ (ab : Str) (init : List PyVal),
-      forIn (List.map PyVal.str P) init (fun platform_ __s => do
-        let t ← Gen.PySrc.Tag.__init__ (PyVal.obj "Tag" []) (.str I) (.str ab) platform_
-        pure (ForInStep.yield (__s ++ [t])))
-      = .ok (init ++ P.map (fun p => ofTag (mkTag I ab p))) := by
-    intro ab init
-    exact tags_over_platforms _ (fun p => mkTag I ab p) _ init (fun p => Tag.__init___eq_model I ab p)
-  have outer :
-      forIn (List.map PyVal.str A) ([] : List PyVal) (fun abi __s => do
-        let __s ← forIn (List.map PyVal.str P) __s (fun platform_ __s => do
-          let t ← Gen.PySrc.Tag.__init__ (PyVal.obj "Tag" []) (.str I) abi platform_
-          pure (ForInStep.yield (__s ++ [t])))
-        pure (ForInStep.yield __s))
-      = .ok (A.flatMap fun ab => P.map (fun p => ofTag (mkTag I ab p))) := by
-    rw [forIn_append_ok _ _ _ (fun x => match x with
-      | .str ab => P.map (fun p => ofTag (mkTag I ab p)) | _ => [])]
-    · simp [List.flatMap_map]
-    · intro x hx s
-      simp only [List.mem_map] at hx
-      obtain ⟨ab, _, rfl⟩ := hx
-      rw [inner]; rfl
-  rw [outer]
-  have hthr := _is_threaded_cpython_eq_model A
-  simp only [ofStrs] at hthr
-  simp only [ok_bind, hthr, _abi3_applies_eq_model, truthy_bool]
-  have g3 := genexp_tags (fun platform_ => Gen.PySrc.Tag.__init__ (PyVal.obj "Tag" []) (.str I) (PyVal.str (ofString "abi3")) platform_)
-    (fun p => mkTag I sAbi3 p) P (fun p => Tag.__init___eq_model I _ p)
-  have gn := genexp_tags (fun platform_ => Gen.PySrc.Tag.__init__ (PyVal.obj "Tag" []) (.str I) (PyVal.str (ofString "none")) platform_)
-    (fun p => mkTag I sNone p) P (fun p => Tag.__init___eq_model I _ p)
-  simp only [ofStrs] at g3 gn
-  simp only [g3, gn, ok_bind, iterate_iter]
-  -- the model, with the same names
-  have hm : cpythonTags cfg ver abis plats =
-      (A.flatMap fun ab => P.map fun p => mkTag I ab p)
-      ++ (if abi3Applies (a :: rest) (isThreadedCpython A) then P.map fun p => mkTag I sAbi3 p else [])
-      ++ (P.map fun p => mkTag I sNone p)
-      ++ (if abi3Applies (a :: rest) (isThreadedCpython A) then
-            (Tags.rangeDown ((a :: rest).getD 1 0) 2).flatMap fun minor =>
-              P.map fun p => mkTag (sCp ++ versionNodot [(a :: rest).getD 0 0, minor]) sAbi3 p
-          else []) := by
-    simp only [cpythonTags, hV, hP, ← hA, ← hI, abisOrDefault]
-    cases abis <;> rfl
-  rw [hm]
-  cases hab : abi3Applies (a :: rest) (isThreadedCpython A)
-  · simp [List.map_append, List.map_flatMap, List.map_map, Function.comp_def]
-  · simp only [if_true]
-    obtain ⟨b, rest', rfl⟩ : ∃ b rest', rest = b :: rest' := by
-      cases rest with
-      | nil => simp [abi3Applies] at hab
-      | cons b r => exact ⟨b, r, rfl⟩
-    have hr := range_down b 2
-    have h21 : ((2 : Nat) : Int) - 1 = 1 := by omega
-    rw [h21] at hr
-    simp only [ofVersion, List.map_cons, ofNat, getitem_tuple_one, ok_bind, sub_int, hr, iterate_iter]
-    obtain ⟨x, y, hl⟩ := abi3_outer a (b :: rest') P (Tags.rangeDown b 2)
-      (PyVal.unbound, List.flatMap (fun ab => List.map (fun p => ofTag (mkTag I ab p)) P) A ++
-          List.map (fun p => ofTag (mkTag I sAbi3 p)) P ++ List.map (fun p => ofTag (mkTag I sNone p)) P, PyVal.str I)
-    simp only [ofVersion, List.map_cons, ofNat, ofStrs, iterate_list, ok_bind] at hl
-    rw [hl]
-    simp [List.map_append, List.map_flatMap, List.map_map, Function.comp_def]
+  first
+  | (
+      unfold Gen.PySrc.cpython_tags
+      have hsl : getslice (ofVersion (versionOrDefault cfg ver)) PyVal.none (PyVal.int 2) = .ok (ofVersion ((versionOrDefault cfg ver).take 2)) := by
+        rw [ofVersion, show (PyVal.int 2) = PyVal.int ((2 : Nat) : Int) from rfl, getslice_tuple_to, ofVersion, List.map_take]
+      simp only [version_default_jp cfg ver hs]
+      simp only [abis_default_jp cfg _ abis warn]
+      simp only [platforms_default_jp cfg plats]
+      generalize hV : versionOrDefault cfg ver = V at *
+      generalize hP : platformsOrDefault cfg plats = P
+      obtain ⟨a, rest, rfl⟩ : ∃ a rest, V = a :: rest := by
+        cases V with
+        | nil => exact absurd rfl hv
+        | cons a rest => exact ⟨a, rest, rfl⟩
+      -- the two removals
+      have hrem : ∀ l : List Str,
+          forIn [PyVal.str (ofString "abi3"), PyVal.str (ofString "none")] (PyVal.list (l.map .str)) (fun explicit_abi __s => do
+            let p ← tryCatch (do let abis ← list_remove __s explicit_abi; pure (⟨(), abis⟩ : Unit × PyVal))
+              (fun __e1 => if catches "ValueError" __e1 = true then pure ⟨(), __s⟩
+                else do let __r ← (throw __e1 : M Unit); pure ⟨__r, __s⟩)
+            pure (ForInStep.yield p.snd)) = .ok (.list (((l.erase sAbi3).erase sNone).map .str)) := by
+        intro l
+        simp only [List.forIn_cons, List.forIn_nil]
+        rw [show ofString "abi3" = sAbi3 from rfl, show ofString "none" = sNone from rfl, remove_or_keep sAbi3 l]
+        simp only [ok_bind, pure_bind]
+        rw [remove_or_keep sNone]
+        rfl
+      simp only [hsl, ok_bind, _version_nodot_eq_model, format_str, ofStrs, list_list, iterate_tuple]
+      erw [hrem]
+      simp only [ok_bind, iterate_list]
+      generalize hA : ((abisOrDefault cfg (a :: rest) abis).erase sAbi3).erase sNone = A
+      generalize hI : ofString "cp" ++ versionNodot (List.take 2 (a :: rest)) = I
+      -- the loop over abis x platforms
+      have inner : ∀ (ab : Str) (init : List PyVal),
+          forIn (List.map PyVal.str P) init (fun platform_ __s => do
+            let t ← Gen.PySrc.Tag.__init__ (PyVal.obj "Tag" []) (.str I) (.str ab) platform_
+            pure (ForInStep.yield (__s ++ [t])))
+          = .ok (init ++ P.map (fun p => ofTag (mkTag I ab p))) := by
+        intro ab init
+        exact tags_over_platforms _ (fun p => mkTag I ab p) _ init (fun p => Tag.__init___eq_model I ab p)
+      have outer :
+          forIn (List.map PyVal.str A) ([] : List PyVal) (fun abi __s => do
+            let __s ← forIn (List.map PyVal.str P) __s (fun platform_ __s => do
+              let t ← Gen.PySrc.Tag.__init__ (PyVal.obj "Tag" []) (.str I) abi platform_
+              pure (ForInStep.yield (__s ++ [t])))
+            pure (ForInStep.yield __s))
+          = .ok (A.flatMap fun ab => P.map (fun p => ofTag (mkTag I ab p))) := by
+        rw [forIn_append_ok _ _ _ (fun x => match x with
+          | .str ab => P.map (fun p => ofTag (mkTag I ab p)) | _ => [])]
+        · simp [List.flatMap_map]
+        · intro x hx s
+          simp only [List.mem_map] at hx
+          obtain ⟨ab, _, rfl⟩ := hx
+          rw [inner]; rfl
+      rw [outer]
+      have hthr := _is_threaded_cpython_eq_model A
+      simp only [ofStrs] at hthr
+      simp only [ok_bind, hthr, _abi3_applies_eq_model, truthy_bool]
+      have g3 := genexp_tags (fun platform_ => Gen.PySrc.Tag.__init__ (PyVal.obj "Tag" []) (.str I) (PyVal.str (ofString "abi3")) platform_)
+        (fun p => mkTag I sAbi3 p) P (fun p => Tag.__init___eq_model I _ p)
+      have gn := genexp_tags (fun platform_ => Gen.PySrc.Tag.__init__ (PyVal.obj "Tag" []) (.str I) (PyVal.str (ofString "none")) platform_)
+        (fun p => mkTag I sNone p) P (fun p => Tag.__init___eq_model I _ p)
+      simp only [ofStrs] at g3 gn
+      simp only [g3, gn, ok_bind, iterate_iter]
+      -- the model, with the same names
+      have hm : cpythonTags cfg ver abis plats =
+          (A.flatMap fun ab => P.map fun p => mkTag I ab p)
+          ++ (if abi3Applies (a :: rest) (isThreadedCpython A) then P.map fun p => mkTag I sAbi3 p else [])
+          ++ (P.map fun p => mkTag I sNone p)
+          ++ (if abi3Applies (a :: rest) (isThreadedCpython A) then
+                (Tags.rangeDown ((a :: rest).getD 1 0) 2).flatMap fun minor =>
+                  P.map fun p => mkTag (sCp ++ versionNodot [(a :: rest).getD 0 0, minor]) sAbi3 p
+              else []) := by
+        simp only [cpythonTags, hV, hP, ← hA, ← hI, abisOrDefault]
+        cases abis <;> rfl
+      rw [hm]
+      cases hab : abi3Applies (a :: rest) (isThreadedCpython A)
+      · simp [List.map_append, List.map_flatMap, List.map_map, Function.comp_def]
+      · simp only [if_true]
+        obtain ⟨b, rest', rfl⟩ : ∃ b rest', rest = b :: rest' := by
+          cases rest with
+          | nil => simp [abi3Applies] at hab
+          | cons b r => exact ⟨b, r, rfl⟩
+        have hr := range_down b 2
+        have h21 : ((2 : Nat) : Int) - 1 = 1 := by omega
+        rw [h21] at hr
+        simp only [ofVersion, List.map_cons, ofNat, getitem_tuple_one, ok_bind, sub_int, hr, iterate_iter]
+        obtain ⟨x, y, hl⟩ := abi3_outer a (b :: rest') P (Tags.rangeDown b 2)
+          (PyVal.unbound, List.flatMap (fun ab => List.map (fun p => ofTag (mkTag I ab p)) P) A ++
+              List.map (fun p => ofTag (mkTag I sAbi3 p)) P ++ List.map (fun p => ofTag (mkTag I sNone p)) P, PyVal.str I)
+        simp only [ofVersion, List.map_cons, ofNat, ofStrs, iterate_list, ok_bind] at hl
+        rw [hl]
+        simp [List.map_append, List.map_flatMap, List.map_map, Function.comp_def]
+
+      done
+    )
+  | (
+      unfold Gen.PySrc.cpython_tags
+      have hsl : getslice (ofVersion (versionOrDefault cfg ver)) PyVal.none (PyVal.int 2) = .ok (ofVersion ((versionOrDefault cfg ver).take 2)) := by
+        rw [ofVersion, show (PyVal.int 2) = PyVal.int ((2 : Nat) : Int) from rfl, getslice_tuple_to, ofVersion, List.map_take]
+      simp only [version_default_jp cfg ver hs]
+      simp only [abis_default_jp cfg _ abis warn]
+      simp only [platforms_default_jp cfg plats]
+      generalize hV : versionOrDefault cfg ver = V at *
+      generalize hP : platformsOrDefault cfg plats = P
+      obtain ⟨a, rest, rfl⟩ : ∃ a rest, V = a :: rest := by
+        cases V with
+        | nil => exact absurd rfl hv
+        | cons a rest => exact ⟨a, rest, rfl⟩
+      -- the two removals (`if x in abis: abis.remove(x)`)
+      have hrem1 : ∀ (x : Str) (l : List Str),
+          (do let c ← contains (PyVal.list (l.map .str)) (.str x)
+              if c = true then do
+                let abis ← list_remove (PyVal.list (l.map .str)) (.str x)
+                pure (ForInStep.yield abis)
+              else pure (ForInStep.yield (PyVal.list (l.map .str))) : M (ForInStep PyVal)) =
+            .ok (.yield (.list ((l.erase x).map .str))) := by
+        intro x l
+        simp only [list_remove, removeFirst_strs, contains_strs_mem, pure_ok, ok_bind]
+        by_cases hm : x ∈ l
+        · simp [hm]
+        · have : l.erase x = l := List.erase_of_not_mem hm
+          simp [hm, this]
+      have hrem : ∀ l : List Str,
+          forIn [PyVal.str (ofString "abi3"), PyVal.str (ofString "none")] (PyVal.list (l.map .str)) (fun explicit_abi __s => do
+            let __do_lift ← contains __s explicit_abi
+            if __do_lift = true then do
+                let abis ← list_remove __s explicit_abi
+                pure (ForInStep.yield abis)
+              else pure (ForInStep.yield __s)) = .ok (.list (((l.erase sAbi3).erase sNone).map .str)) := by
+        intro l
+        simp only [List.forIn_cons, List.forIn_nil]
+        rw [show ofString "abi3" = sAbi3 from rfl, show ofString "none" = sNone from rfl, hrem1 sAbi3 l]
+        simp only [ok_bind]
+        rw [hrem1 sNone]
+        rfl
+      simp only [hsl, ok_bind, _version_nodot_eq_model, format_str, ofStrs, list_list, iterate_tuple]
+      erw [hrem]
+      simp only [ok_bind, iterate_list]
+      generalize hA : ((abisOrDefault cfg (a :: rest) abis).erase sAbi3).erase sNone = A
+      generalize hI : ofString "cp" ++ versionNodot (List.take 2 (a :: rest)) = I
+      -- the loop over abis x platforms
+      have inner : ∀ (ab : Str) (init : List PyVal),
+          forIn (List.map PyVal.str P) init (fun platform_ __s => do
+            let t ← Gen.PySrc.Tag.__init__ (PyVal.obj "Tag" []) (.str I) (.str ab) platform_
+            pure (ForInStep.yield (__s ++ [t])))
+          = .ok (init ++ P.map (fun p => ofTag (mkTag I ab p))) := by
+        intro ab init
+        exact tags_over_platforms _ (fun p => mkTag I ab p) _ init (fun p => Tag.__init___eq_model I ab p)
+      have outer :
+          forIn (List.map PyVal.str A) ([] : List PyVal) (fun abi __s => do
+            let __s ← forIn (List.map PyVal.str P) __s (fun platform_ __s => do
+              let t ← Gen.PySrc.Tag.__init__ (PyVal.obj "Tag" []) (.str I) abi platform_
+              pure (ForInStep.yield (__s ++ [t])))
+            pure (ForInStep.yield __s))
+          = .ok (A.flatMap fun ab => P.map (fun p => ofTag (mkTag I ab p))) := by
+        rw [forIn_append_ok _ _ _ (fun x => match x with
+          | .str ab => P.map (fun p => ofTag (mkTag I ab p)) | _ => [])]
+        · simp [List.flatMap_map]
+        · intro x hx s
+          simp only [List.mem_map] at hx
+          obtain ⟨ab, _, rfl⟩ := hx
+          rw [inner]; rfl
+      rw [outer]
+      have hthr := _is_threaded_cpython_eq_model A
+      simp only [ofStrs] at hthr
+      simp only [ok_bind, hthr, _abi3_applies_eq_model, truthy_bool]
+      -- the single loops over the platforms: `for platform_ in platforms: yield Tag(interpreter, <abi>, platform_)`
+      have one : ∀ (ab : Str) (init : List PyVal),
+          forIn (List.map PyVal.str P) init (fun platform_ __s => do
+            let t ← Gen.PySrc.Tag.__init__ (PyVal.obj "Tag" []) (.str I) (.str ab) platform_
+            pure (ForInStep.yield (__s ++ [t])))
+          = .ok (init ++ P.map (fun p => ofTag (mkTag I ab p))) := inner
+      simp only [show ofString "abi3" = sAbi3 from rfl, show ofString "none" = sNone from rfl]
+      -- the model, with the same names
+      have hm : cpythonTags cfg ver abis plats =
+          (A.flatMap fun ab => P.map fun p => mkTag I ab p)
+          ++ (if abi3Applies (a :: rest) (isThreadedCpython A) then P.map fun p => mkTag I sAbi3 p else [])
+          ++ (P.map fun p => mkTag I sNone p)
+          ++ (if abi3Applies (a :: rest) (isThreadedCpython A) then
+                (Tags.rangeDown ((a :: rest).getD 1 0) 2).flatMap fun minor =>
+                  P.map fun p => mkTag (sCp ++ versionNodot [(a :: rest).getD 0 0, minor]) sAbi3 p
+              else []) := by
+        simp only [cpythonTags, hV, hP, ← hA, ← hI, abisOrDefault]
+        cases abis <;> rfl
+      rw [hm]
+      cases hab : abi3Applies (a :: rest) (isThreadedCpython A)
+      · simp only [Bool.false_eq_true, if_false, Bool.not_false, if_true]
+        erw [one sNone]
+        simp [List.map_append, List.map_flatMap, List.map_map, Function.comp_def]
+      · simp only [if_true, Bool.not_true, Bool.false_eq_true, if_false]
+        erw [one sAbi3]
+        simp only [ok_bind]
+        erw [one sNone]
+        simp only [ok_bind]
+        obtain ⟨b, rest', rfl⟩ : ∃ b rest', rest = b :: rest' := by
+          cases rest with
+          | nil => simp [abi3Applies] at hab
+          | cons b r => exact ⟨b, r, rfl⟩
+        have hr := range_down b 2
+        have h21 : ((2 : Nat) : Int) - 1 = 1 := by omega
+        rw [h21] at hr
+        simp only [ofVersion, List.map_cons, ofNat, getitem_tuple_zero, getitem_tuple_one, ok_bind, sub_int, hr, iterate_iter]
+        rw [forIn_pair_append_bind _ (fun x => match x with
+          | .int m => P.map (fun p => ofTag (mkTag (sCp ++ versionNodot [a, m.toNat]) sAbi3 p)) | _ => []) _ _ ?hb ?hk]
+        case hk => intro o acc; rfl
+        case hb =>
+          intro x hx o acc
+          simp only [List.mem_map] at hx
+          obtain ⟨m, _, rfl⟩ := hx
+          have hn : Gen.PySrc._version_nodot (PyVal.tuple [PyVal.int a, ofNat m]) = .ok (.str (versionNodot [a, m])) :=
+            _version_nodot_eq_model [a, m]
+          simp only [hn, ok_bind, format_str]
+          have := tags_over_platforms
+            (fun platform_ => Gen.PySrc.Tag.__init__ (PyVal.obj "Tag" []) (.str (ofString "cp" ++ versionNodot [a, m])) (.str sAbi3) platform_)
+            (fun p => mkTag (sCp ++ versionNodot [a, m]) sAbi3 p) P acc (fun p => Tag.__init___eq_model _ _ p)
+          erw [this]
+          exact ⟨PyVal.str (ofString "cp" ++ versionNodot [a, m]), by simp [ofNat]⟩
+        simp [List.map_append, List.map_flatMap, List.map_map, Function.comp_def, List.flatMap_map, ofNat]
+    )
 
 end Src
